@@ -679,12 +679,12 @@ pub fn run(driver: &Driver, seed: u64, thorough: bool, replay: Option<&serde_jso
     let (st, or) = decide_stream(driver);
     rep.streams.push(st);
     rep.oracles.push(or);
-    let (st, or) = fields_stream(driver, &schemas, seed, if thorough { 12 } else { 1 }, None);
+    let (st, or) = fields_stream(driver, &schemas, seed, if thorough { 40 } else { 2 }, None);
     rep.streams.push(st);
     rep.oracles.push(or);
-    let (st, or) = lazy_stream(driver, &schemas, seed, if thorough { 20 } else { 2 });
+    let (st, or) = lazy_stream(driver, &schemas, seed, if thorough { 40 } else { 2 });
     rep.streams.push(st);
     rep.oracles.push(or);
-    rep.oracles.push(tree_oracle(&schemas, seed, if thorough { 8 } else { 1 }));
+    rep.oracles.push(tree_oracle(&schemas, seed, if thorough { 20 } else { 2 }));
     rep
 }
